@@ -129,3 +129,6 @@ Definition lookup_kind_eqb (a b : lookup_kind) : bool :=
   end.
 (* simplecss::Element for XmlNode: the facts positional selectors rest on *)
 Inductive css_fact := CF_ParentElement | CF_PrevSiblingElement | CF_FirstChildViaPrevSibling | CF_AttrMatchNoNamespace.
+
+(* has_valid_transform: the conjuncts of its final test *)
+Inductive ts_test := TT_IsValid | TT_DetRelTol.
